@@ -7,8 +7,8 @@
 //! Channels (all in one state): A = (key K1, label L1) seal + open; B = (K2, L1) and C = (K1, L2)
 //! seal-only "foreign" channels whose sequence numbers advance in lock step with A.
 //!
-//! Space, for every plaintext length 0..=64 and 3 consecutive messages (seq 0,1,2) sealed with
-//! `seal` and with `seal_in_place`:
+//! Space, for every plaintext length 0..=64 (thorough 0..=128) and 3 (4) consecutive messages sealed
+//! with `seal` and as many with `seal_in_place` (sequence numbers 0..5 (0..7)):
 //!   * the intact message;
 //!   * every truncation length 0..len; one extra trailing byte (5 values);
 //!   * every position replaced by {00,01,7f,80,ff,e^1,e^80};
@@ -193,7 +193,7 @@ impl Wk {
             let c = call(w, which, false, input);
             match c.res {
                 Err(p) => {
-                    self.rep.outcome("panic", 1);
+                    self.rep.outcome(&format!("panic in {} on a {}-byte input", which.func(), input.len()), 1);
                     let loc = mcx::last_panic_location();
                     self.fail(format!("{} panics", which.func()), input, format!("panic: {p} at {loc}"), what, which, pt.len(), stream);
                 }
@@ -262,7 +262,7 @@ impl Wk {
     }
 }
 
-fn tamperings(ct: &[u8], next: &[u8], seq: u64, mut f: impl FnMut(String, Vec<u8>)) {
+fn tamperings(ct: &[u8], next: &[u8], seq: u64, all_values: bool, mut f: impl FnMut(String, Vec<u8>)) {
     let len = ct.len();
     let n = len - OVERHEAD;
     for i in 0..len {
@@ -275,7 +275,8 @@ fn tamperings(ct: &[u8], next: &[u8], seq: u64, mut f: impl FnMut(String, Vec<u8
     }
     for i in 0..len {
         let mut seen = BTreeSet::new();
-        for x in [0x00, 0x01, 0x7f, 0x80, 0xff, ct[i] ^ 1, ct[i] ^ 0x80] {
+        let alphabet: Vec<u8> = if all_values { (0..=255).collect() } else { vec![0x00, 0x01, 0x7f, 0x80, 0xff, ct[i] ^ 1, ct[i] ^ 0x80] };
+        for x in alphabet {
             if x != ct[i] && seen.insert(x) {
                 let mut v = ct.to_vec();
                 v[i] = x;
@@ -313,7 +314,7 @@ fn tamperings(ct: &[u8], next: &[u8], seq: u64, mut f: impl FnMut(String, Vec<u8
 }
 
 /// Everything for one plaintext length (own world, own key stream).
-fn length_case(parent: &Report, seed: u64, n: usize) -> Wk {
+fn length_case(parent: &Report, seed: u64, n: usize, msgs: usize, all_values: bool) -> Wk {
     mcx::quiet_panics();
     let mut wk = Wk { rep: parent.worker(), bad: MinCases::default(), nontrivial: BTreeSet::new() };
     let stream = n as u64;
@@ -322,10 +323,10 @@ fn length_case(parent: &Report, seed: u64, n: usize) -> Wk {
     let mut sealed: Vec<(Vec<u8>, Vec<u8>, u64, &'static str)> = Vec::new(); // (ct, pt, seq, how)
     let mut foreign_b = Vec::new();
     let mut foreign_c = Vec::new();
-    for m in 0..2 * MSGS {
+    for m in 0..2 * msgs {
         let pt = plaintext(n, m);
         let in_place = m % 2 == 1;
-        let mut seal_on = |ctx: &mut <State<CS> as AfcState>::SealCtx, client: &Cl| -> Vec<u8> {
+        let seal_on = |ctx: &mut <State<CS> as AfcState>::SealCtx, client: &Cl| -> Vec<u8> {
             if in_place {
                 let mut data = pt.clone();
                 client.seal_in_place(ctx, &mut data).unwrap_or_else(|e| mcx::machinery_error(&format!("C39: seal_in_place failed: {e}")));
@@ -351,7 +352,7 @@ fn length_case(parent: &Report, seed: u64, n: usize) -> Wk {
         foreign_b.push(b);
         foreign_c.push(c);
     }
-    for m in 0..2 * MSGS {
+    for m in 0..2 * msgs {
         let (ct, pt, seq, how) = sealed[m].clone();
         let l1 = w.l1;
         wk.must_open(&mut w, &format!("intact message from {how}"), &ct, &pt, l1, seq, false, stream);
@@ -361,9 +362,9 @@ fn length_case(parent: &Report, seed: u64, n: usize) -> Wk {
         wk.rep.count("foreign_cases", 2);
         wk.must_fail(&mut w, "foreign channel (other key, same label and sequence number)", &foreign_b[m], &pt, stream);
         wk.must_fail(&mut w, "foreign channel (same key and sequence number, other label)", &foreign_c[m], &pt, stream);
-        let next = sealed[(m + 2) % (2 * MSGS)].0.clone();
+        let next = sealed[(m + 2) % (2 * msgs)].0.clone();
         let mut cases: Vec<(String, Vec<u8>)> = Vec::new();
-        tamperings(&ct, &next, seq, |d, v| cases.push((d, v)));
+        tamperings(&ct, &next, seq, all_values, |d, v| cases.push((d, v)));
         for (i, (d, v)) in cases.iter().enumerate() {
             wk.rep.count("tampered_cases", 1);
             wk.must_fail(&mut w, d, v, &pt, stream);
@@ -436,10 +437,12 @@ pub fn run(args: &Args) {
         rep.sample(r);
         rep.finish();
     }
-    let max_len = 64usize;
+    let max_len: usize = args.tier.pick(64, 128);
+    let msgs: usize = args.tier.pick(MSGS, 4);
+    let all_values_up_to: usize = args.tier.pick(0, 8); // thorough: all 256 values at every position of short messages
     let mut parts: Vec<Wk> = (0..=max_len + 1)
         .into_par_iter()
-        .map(|n| if n <= max_len { length_case(&rep, args.seed, n) } else { arbitrary_inputs(&rep, args.seed) })
+        .map(|n| if n <= max_len { length_case(&rep, args.seed, n, msgs, args.tier == mcx::Tier::Thorough && n <= all_values_up_to) } else { arbitrary_inputs(&rep, args.seed) })
         .collect();
     let mut bad = MinCases::default();
     let mut nontrivial: BTreeSet<Vec<u8>> = BTreeSet::new();
@@ -451,11 +454,11 @@ pub fn run(args: &Args) {
     bad.flush(&mut rep);
     rep.set("distinct_nontrivial", nontrivial.len() as u64);
     rep.set("plaintext_lengths", json!([0, max_len]));
-    rep.set("messages_per_length", (2 * MSGS) as u64);
+    rep.set("messages_per_length", (2 * msgs) as u64);
     rep.set("interfaces", IFACES.iter().map(|i| i.name()).collect::<Vec<_>>());
     rep.set(
         "rule",
-        format!("plaintext lengths 0..={max_len} × {} messages (seal and seal_in_place alternating, sequence numbers 0..{}) × [intact; every truncation; 5 extra trailing bytes; 7-value replacement of every byte; 5 sequence-number field values; boundary byte exchanges; field swaps with another message; the same plaintext and sequence number on a channel with another key and on a channel with the same key but another label] + all byte strings ≤2 bytes + constant/ramp strings of length 0..=48, each through open (exact and oversized dst) and open_in_place (Vec, FixedBuf, heapless::Vec). Non-trivial = distinct input byte strings of at least OVERHEAD={OVERHEAD} bytes (they pass the header and tag length checks and reach the AEAD), counted with a set.", 2 * MSGS, 2 * MSGS),
+        format!("plaintext lengths 0..={max_len} × {} messages (seal and seal_in_place alternating, sequence numbers 0..{}) × [intact; every truncation; 5 extra trailing bytes; 7-value replacement of every byte{}; 5 sequence-number field values; boundary byte exchanges; field swaps with another message; the same plaintext and sequence number on a channel with another key and on a channel with the same key but another label] + all byte strings ≤2 bytes + constant/ramp strings of length 0..=48, each through open (exact and oversized dst) and open_in_place (Vec, FixedBuf, heapless::Vec). Non-trivial = distinct input byte strings of at least OVERHEAD={OVERHEAD} bytes (they pass the header and tag length checks and reach the AEAD), counted with a set.", 2 * msgs, 2 * msgs, if args.tier == mcx::Tier::Thorough { format!(" (all 256 values for plaintext lengths ≤{all_values_up_to})") } else { String::new() }),
     );
     rep.set("exhaustive", true);
     for c in ["intact_opens", "tampered_cases", "foreign_cases", "arbitrary_inputs", "err_buffer_unchanged", "err_buffer_zeroed"] {
